@@ -8,7 +8,7 @@ from sa.emit import Elem, walk_elems
 from sa.flow import show, sig, subterms
 from sa.model import AnalysisError, norm, parent, walk_no_nested
 
-from .common import include_rules, alts, callers_of, commands, is_call, is_plain_iter, loop_iteration_paths, need, prov, unshipped_modules
+from .common import atomic_deps, include_rules, alts, callers_of, commands, is_call, is_plain_iter, loop_iteration_paths, need, prov, unshipped_modules
 from .c12 import traversal_funcs
 from .xmlcommon import documents
 
@@ -44,7 +44,10 @@ def run(report, p):
                 o = o[2][0]
             return o[0] == "call" and o[1].endswith(("os.listdir", "os.scandir"))
 
-        ok_it = is_plain_iter(p, l1.iter) and all(_is_listing(o) for o in pr.origins(l1.iter, t))
+        l1base = l1.iter
+        while isinstance(l1base, ast.Call) and norm(l1base.func) in ("sorted", "list") and len(l1base.args) == 1 and not any(k.arg == "key" or k.arg == "reverse" for k in l1base.keywords):
+            l1base = l1base.args[0]  # sorting / copying the listing drops nothing
+        ok_it = is_plain_iter(p, l1base) and all(_is_listing(o) for o in pr.origins(l1.iter, t))
         r1.check(ok_it, t, l1.iter, "the listing loop iterates a slice / filtered view of the directory listing", construct=l1.iter)
         apps = [x for s in l1.body for x in ast.walk(s) if isinstance(x, ast.Call) and isinstance(x.func, ast.Attribute) and x.func.attr == "append"]
         ok_app = len(apps) == 1 and isinstance(apps[0].args[0], ast.Tuple) and len(apps[0].args[0].elts) == 2 and norm(apps[0].args[0].elts[0]) == norm(l1.target)
@@ -58,17 +61,22 @@ def run(report, p):
         r1.check(not brk, t, brk[0] if brk else l1, "the listing loop can be left early: later names are never visited")
         conts = [x for s in l1.body for x in ast.walk(s) if isinstance(x, ast.Continue)]
         for c in conts:
-            deps = [(norm(tt.ast), l) for tt, l in g.control_deps(g.node_for(c)) if tt.kind == "test"]
+            deps = [a for tt, l in g.control_deps(g.node_for(c)) if tt.kind == "test" for a in atomic_deps(tt.ast, l)]
             ok = any("match_file" in d and l == "T" for d, l in deps) and all(("match_file" in d or d == t.params[1]) and l == "T" for d, l in deps)
             r1.check(ok, t, c, f"a listed name is skipped under {deps}: only names matching the ignore patterns may be dropped", construct=f"skip under {deps}")
         # recursion loop
-        ok2 = is_plain_iter(p, l2.iter) and norm(l2.iter) == children
+        # the list may be handed on under another name (children = <the list built above>)
+        aliases = {children}
+        for n_ in walk_no_nested(t.node):
+            if isinstance(n_, ast.Assign) and len(n_.targets) == 1 and isinstance(n_.targets[0], ast.Name) and isinstance(n_.value, ast.Name) and n_.value.id in aliases:
+                aliases.add(n_.targets[0].id)
+        ok2 = is_plain_iter(p, l2.iter) and norm(l2.iter) in aliases
         r1.check(ok2, t, l2.iter, "the recursion loop does not iterate the full children list", construct=l2.iter)
         recs = [c for c, tg in p.calls[t.qual] if t.qual in tg]
         r1.check(len(recs) == 1, t, l2, "expected exactly one recursive call")
         for rc in recs:
             gn = g.node_for(rc)
-            deps = [(norm(tt.ast), l) for tt, l in g.control_deps(gn, transitive=True) if tt.kind == "test"]
+            deps = [a for tt, l in g.control_deps(gn, transitive=True, through_loops=False) if tt.kind == "test" for a in atomic_deps(tt.ast, l)]
             okd = all((d == "is_dir" and l == "T") or ("islink" in d and l == "F") for d, l in deps) and any(d == "is_dir" for d, l in deps)
             r1.check(okd, t, rc, f"sub-directories are descended into only under {deps}: a directory that is not a link must always be traversed", construct=f"recursion under {deps}")
             a0 = pr.origins(rc.args[0], t)
@@ -83,7 +91,7 @@ def run(report, p):
             else:
                 r1.check(False, t, rc, "the recursion's result is not re-yielded (unrecognised idiom)")
         last = t.node.body[-1]
-        okl = isinstance(last, ast.Expr) and isinstance(last.value, ast.Yield) and isinstance(last.value.value, ast.Tuple) and len(last.value.value.elts) == 2 and norm(last.value.value.elts[0]) == top and norm(last.value.value.elts[1]) == children
+        okl = isinstance(last, ast.Expr) and isinstance(last.value, ast.Yield) and isinstance(last.value.value, ast.Tuple) and len(last.value.value.elts) == 2 and norm(last.value.value.elts[0]) == top and norm(last.value.value.elts[1]) in aliases
         r1.check(okl, t, last, "the traversal does not end by yielding (top, the full children list)", construct=f"final yield {norm(last)[:60]}")
 
     # ------------------------------------------------------------------ R2.2
